@@ -105,8 +105,11 @@ func c09Linux(c *Ctx, tp *tape.Tape, extra map[string]any) *Failure {
 			r := run(&f)
 			c.Res.Evaluations++
 			c.Count("faults_fired:"+fk, r.Fired[fk])
-			if k, m := judgeFault(r, o, f, approve); k != "" && !c.NoteKnown(k) {
-				return mk(k, m, r, &f)
+			if k, m := judgeFault(r, o, f, approve); k != "" {
+				if !c.NoteKnown(k) {
+					return mk(k, m, r, &f)
+				}
+				continue
 			}
 			if k, m := judgeOK(r, o, approve); k != "" && !c.NoteKnown(k) {
 				return mk(k, m, r, &f)
